@@ -709,9 +709,32 @@ package engine
 //@   at-call NewException requires[copy-of-ball] a0 == b && !(b is Variable)
 //@   at-call InstantiationError requires[only-for-variable] b is Variable
 
-//@ func compile
+//@ spec abstract simplified(e *Env, t Term) Term
+
+//@ func (*Env).simplify
 //@   trusted
 //@   modifies nothing
+//@   ensures result == simplified(e, t)
+
+//@ func compileClause
+//@   trusted
+//@   modifies nothing
+
+//@ func (*altIterator).Next
+//@   trusted
+//@   modifies *i
+//@ func (*altIterator).Current
+//@   trusted
+//@   modifies nothing
+
+//@ -- compile: the stored clause term is the given term with the bindings in force applied (C10)
+//@ func compile
+//@   property C10
+//@   nosafety
+//@   modifies nothing
+//@   trusted-frame
+//@   let rt = resolve(env, t)
+//@   at-store clause.raw requires[stored-term-has-the-bindings-applied] v == simplified(env, rt)
 
 //@ func Call
 //@   property C03
